@@ -35,13 +35,52 @@ class NormStr(str):
         if str.__eq__(self, other) is True:     # NotImplemented (other is not a str) is truthy
             return True
         if isinstance(other, str) and not isinstance(other, NormStr) and self.node is not None:
-            return _alpha_eq(self.node, other)
+            return _alpha_eq(self.node, other) or _alias_eq(self.node, other)
         return False
 
     def __ne__(self, other):
         return not self.__eq__(other)
 
     __hash__ = str.__hash__
+
+
+def _alias_eq(node, expected):
+    """is the expression `node` the expected expression up to temporaries?  The expected text is written with the names of the pinned
+    tree: its single-assignment pure temporaries (reference table `__aliases__` of the enclosing function) are expanded, and so are
+    those of the function as it is now - `str(path) not in s` and `str(file_io.path) not in s` are one expression when the reference
+    has `path = file_io.path`, whether or not the temporary still exists."""
+    if not isinstance(node, ast.expr):
+        return False
+    func = getattr(node, '_parent', None)
+    while func is not None and not isinstance(func, FUNC_TYPES):
+        func = getattr(func, '_parent', None)
+    mod = getattr(func, '_mod', None)
+    if func is None or mod is None:
+        return False
+    try:
+        exp = ast.parse(expected, mode='eval').body
+    except SyntaxError:
+        return False
+    from .locals_ref import load_reference
+    from .lib import xnorm
+    ral = load_reference().get('__aliases__', {}).get(mod.name, {}).get(getattr(func, '_qual', None), {})
+
+    class _X(ast.NodeTransformer):
+        depth = 0
+
+        def visit_Name(self, n):
+            if isinstance(n.ctx, ast.Load) and n.id in ral and self.depth < 6:
+                self.depth += 1
+                r = self.visit(ast.parse(ral[n.id], mode='eval').body)
+                self.depth -= 1
+                return r
+            return n
+    try:
+        right = ast.unparse(ast.fix_missing_locations(_X().visit(exp)))
+        left = str.__str__(xnorm(node, func))
+    except Exception:
+        return False
+    return left == right
 
 
 def _renameable(node):
